@@ -102,6 +102,12 @@ def gen_plan(seed, tier):
                     "acts": [["output", r.randint(1, nports), 0]],
                     "cookie": 99, "idle": 0, "hard": 0, "flags": 0})
   r.shuffle(steps) if r.chance(0.3) else None
+  rfd = Rng(mix(seed, "fragdrop"))
+  if rfd.chance(0.15):
+    # the controller has asked for fragments to be dropped: that concerns
+    # fragments; a whole datagram (DF or not) is looked up as ever
+    steps.insert(rfd.randint(0, len(steps) // 2),
+                 {"op": "set_config", "flags": 1, "msl": cfg["miss_send_len"]})
   return {"prop": PROP, "seed": seed, "cfg": cfg, "steps": steps}
 
 
